@@ -64,6 +64,10 @@ pub(crate) fn bbox_write_z_range_to<PointType: HasZ, W: Write>(
     Ok(())
 }
 
+pub(crate) fn invalid_data(msg: &'static str) -> std::io::Error {
+    std::io::Error::new(std::io::ErrorKind::InvalidData, msg)
+}
+
 pub(crate) fn read_xy_in_vec_of<PointType, T>(
     source: &mut T,
     num_points: i32,
@@ -169,7 +173,6 @@ impl Iterator for PartIndexIter<'_> {
                 .copied()
                 .unwrap_or(self.num_points);
             self.current_part_index += 1;
-            debug_assert!(end_of_part_index >= start_of_part_index);
             Some((start_of_part_index, end_of_part_index))
         } else {
             None
@@ -201,6 +204,9 @@ impl<'a, PointType: Default + HasMutXY, R: Read> MultiPartShapeReader<'a, PointT
         bbox_read_xy_from(&mut bbox, source)?;
         let num_parts = source.read_i32::<LittleEndian>()?;
         let num_points = source.read_i32::<LittleEndian>()?;
+        if num_parts < 0 || num_points < 0 {
+            return Err(invalid_data("negative number of parts or points"));
+        }
         let parts_array = read_parts(source, num_parts)?;
         let parts = Vec::<Vec<PointType>>::with_capacity(num_parts as usize);
         Ok(Self {
@@ -215,6 +221,10 @@ impl<'a, PointType: Default + HasMutXY, R: Read> MultiPartShapeReader<'a, PointT
 
     pub(crate) fn read_xy(mut self) -> std::io::Result<Self> {
         for (start_index, end_index) in PartIndexIter::new(&self.parts_array, self.num_points) {
+            // The parts are made of the points [start_index, end_index[
+            if start_index < 0 || end_index < start_index || end_index > self.num_points {
+                return Err(invalid_data("parts indices are not in ascending order"));
+            }
             let num_points_in_part = end_index - start_index;
             self.parts
                 .push(read_xy_in_vec_of(self.source, num_points_in_part)?);
